@@ -20,6 +20,8 @@ import (
 	"sync/atomic"
 	"testing/synctest"
 	"time"
+
+	"golang.org/x/net/internal/verifrt"
 )
 
 // ---- fault-injecting network ----
@@ -69,8 +71,8 @@ type vlpNet struct {
 
 	stop    chan struct{} // closed by vlpClose: pending deliveries are abandoned
 	stopMu  sync.Once
-	stopped bool           // set under mu by vlpStop: datagrams written afterwards are discarded, so that wg.Add never runs concurrently with wg.Wait
-	wg      sync.WaitGroup // delivery goroutines
+	stopped bool       // set under mu by vlpStop: datagrams written afterwards are discarded, so that wg.Add never runs concurrently with wg.Wait
+	wg      verifrt.WG // delivery goroutines
 
 	Sent, Dropped, Duped, Reordered [2]int64
 	Bytes, DeliveredBytes           [2]int64
